@@ -53,6 +53,14 @@ func genC11(rt *rapid.T) C11Case {
 		op := Op{K: OpRelabelPod, A: rapid.IntRange(0, 20).Draw(rt, "relabelPod")}
 		c.W.Ops = append(c.W.Ops[:at], append([]Op{op}, c.W.Ops[at:]...)...)
 	}
+	// the confirming read before an adoption is a call like any other: now and then it times out or fails (no answer
+	// is not "not being deleted")
+	for i := range c.W.Ops {
+		if op := &c.W.Ops[i]; op.K == OpReconcile && op.FaultAt == 0 && rapid.IntRange(0, 4).Draw(rt, "getFault") == 0 {
+			op.FaultAt = -5
+			op.Fault = rapid.SampledFrom([]int{FServerError, FTimeoutLost, FTimeoutLost}).Draw(rt, "getFaultKind")
+		}
+	}
 	c.Ahead = rapid.IntRange(0, 2).Draw(rt, "tsAhead") == 0
 	if c.Mode == 1 && rapid.IntRange(0, 4).Draw(rt, "midPause") == 0 {
 		c.MidPause = rapid.IntRange(1, 12).Draw(rt, "midPauseAt")
